@@ -356,6 +356,10 @@ pub struct SyncParams {
     pub late_spawn: bool,
     /// child threads may join earlier children
     pub child_joins: bool,
+    /// data-dependent control flow: `get / load ; skip_next_unless(v) ; <op>`
+    pub conditionals: bool,
+    /// main may join a child in the middle of its body (e.g. while holding a guard) instead of at the end
+    pub joins_inside: bool,
     /// `unpark` may target any thread (default: only threads whose sole blocking operation is `park`,
     /// which keeps the program outside the class of the recorded finding F5a)
     pub unpark_any: bool,
@@ -413,6 +417,9 @@ pub fn sync_prog(s: &mut Src, p: &SyncParams) -> Program {
     }
     if p.probes {
         kinds.extend([9, 9, 9]);
+    }
+    if p.conditionals {
+        kinds.extend([10, 10]);
     }
     let mut probe_writer: [Option<usize>; 3] = [None; 3];
     let mut probe_val = [0u8; 3];
@@ -596,6 +603,40 @@ pub fn sync_prog(s: &mut Src, p: &SyncParams) -> Program {
                 th.ops.push(if s.chance(1, 2) { Op::CellRead { c } } else { Op::CellWrite { c } });
                 made += 1;
             }
+            10 => {
+                // only after an operation that produced a result
+                let has_result = th.ops.iter().any(|o| {
+                    matches!(o, Op::Incr { .. } | Op::Get { .. } | Op::Load { .. } | Op::Read { .. } | Op::Write { .. } | Op::RwGet { .. } | Op::Recv | Op::TryRecv | Op::TryLock { .. })
+                });
+                if !has_result || matches!(th.ops.last(), Some(Op::SkipNextUnless { .. })) {
+                    continue;
+                }
+                let v = s.pick(3) as i8;
+                // the guarded operation must be harmless to skip
+                let mut guarded: Vec<Op> = vec![Op::Yield];
+                if t == 0 && k >= 1 && !p.late_spawn {
+                    guarded.push(Op::Join { t: (1 + s.pick(k)) as u8 });
+                    guarded.push(Op::Join { t: (1 + s.pick(k)) as u8 });
+                }
+                if p.condvar {
+                    guarded.push(Op::NotifyAll { cv: 0 });
+                    guarded.push(Op::NotifyOne { cv: 0 });
+                }
+                if p.notify {
+                    guarded.push(Op::NfNotify { n: 0 });
+                }
+                if p.channel {
+                    guarded.push(Op::Send { v: next_msg });
+                    next_msg += 1;
+                }
+                if p.probes || p.atomics {
+                    guarded.push(Op::Load { a: 0, o: MO::Sc });
+                }
+                let g = guarded[s.pick(guarded.len())].clone();
+                th.ops.push(Op::SkipNextUnless { v });
+                th.ops.push(g);
+                made += 1;
+            }
             9 => {
                 let a = s.pick(3);
                 let can_write = probe_writer[a].map(|w| w == t).unwrap_or(true) && probe_val[a] < 3;
@@ -667,7 +708,14 @@ pub fn sync_prog(s: &mut Src, p: &SyncParams) -> Program {
     if p.joins {
         for t in 1..nth {
             if !joined[t] {
-                main.push(Op::Join { t: t as u8 });
+                if p.joins_inside && s.chance(1, 2) {
+                    // anywhere after the spawn of that thread
+                    let sp = main.iter().position(|o| matches!(o, Op::Spawn { t: x } if *x as usize == t)).unwrap_or(0);
+                    let at = sp + 1 + s.pick(main.len() - sp);
+                    main.insert(at, Op::Join { t: t as u8 });
+                } else {
+                    main.push(Op::Join { t: t as u8 });
+                }
             }
         }
     }
